@@ -122,14 +122,32 @@ def sibling_attribute_treatment(ctx: Ctx) -> None:
     rv = return_values(pa.node)
     ok = bool(rv) and all(isinstance(v, ast.DictComp) and len(v.generators) == 1 and not v.generators[0].ifs and isinstance(v.generators[0].target, ast.Tuple)
                           and unparse(v.key) == unparse(v.generators[0].target.elts[0]) for v in rv)
-    if not ok:
+    recognised = bool(rv) and all(isinstance(v, ast.DictComp) for v in rv)
+    if not ok and not recognised:
+        # dict(zip(attrs, <values converted in order, unfiltered>))
+        def _zip_form(v: ast.expr) -> bool:
+            if not (isinstance(v, ast.Call) and unparse(v.func) == "dict" and len(v.args) == 1 and isinstance(v.args[0], ast.Call) and unparse(v.args[0].func) == "zip" and len(v.args[0].args) == 2):
+                return False
+            k_, vals = v.args[0].args
+            keys_ok = unparse(k_) in ("attrs", "attrs.keys()")
+            vals_ok = isinstance(vals, (ast.GeneratorExp, ast.ListComp)) and len(vals.generators) == 1 and not vals.generators[0].ifs and unparse(vals.generators[0].iter) == "attrs.values()" \
+                and any(isinstance(x, ast.Name) and x.id == getattr(vals.generators[0].target, "id", None) for x in ast.walk(vals.elt))
+            return keys_ok and vals_ok
+
+        if rv and all(_zip_form(v) for v in rv):
+            ok = recognised = True
+    if not ok and not recognised:
         # loop form: for key, value in attrs.items(): result[key] = parse_any_attribute(value, ...) - no condition anywhere, key stored unchanged
         gpa = build_cfg(pa.node)
         loops = [n for n in walk_no_nested(pa.node) if isinstance(n, ast.For) and isinstance(n.target, ast.Tuple) and len(n.target.elts) == 2 and ".items()" in unparse(n.iter)]
         sts = [(tgt, v) for _, tgt, v in stores(pa.node) if isinstance(tgt, ast.Subscript)]
         ok = len(loops) == 1 and len(sts) == 1 and unparse(sts[0][0].slice) == unparse(loops[0].target.elts[0]) and not [t for t in gpa.nodes if t.kind == "test"] \
             and not any(isinstance(x, ast.comprehension) and x.ifs for x in walk_no_nested(pa.node)) and isinstance(sts[0][1], ast.Call) and call_name_of(sts[0][1]) == "parse_any_attribute"
-    ctx.ob("parse_any_attributes keeps every key (no filter, key unchanged) and converts every value", ok, at=pa, construct="all attributes kept", msg="attributes dropped or keys rewritten")
+        recognised = bool(loops) and bool(sts)
+    if recognised:
+        ctx.ob("parse_any_attributes keeps every key (no filter, key unchanged) and converts every value", ok, at=pa, construct="all attributes kept", msg="attributes dropped or keys rewritten")
+    else:
+        ctx.abstain("parse_any_attributes: how the result mapping is built", at=pa, why="neither a dict comprehension, a dict(zip(...)) nor a loop that stores per key")
 
 
 @rule("C11.R4")
@@ -164,6 +182,8 @@ def wildcard_namespace_tokens(ctx: Ctx) -> None:
                     exprs = [c.args[0] for c in node_calls(n) if isinstance(c.func, ast.Attribute) and c.func.attr == "add" and len(c.args) == 1]
                     if isinstance(n.ast, ast.Return) and n.ast.value is not None:
                         exprs.append(n.ast.value)
+                    if isinstance(n.ast, ast.Expr) and isinstance(n.ast.value, ast.Yield) and n.ast.value.value is not None:
+                        exprs.append(n.ast.value.value)  # a generator helper yields the decoded entries
                     for e in exprs:
                         for leaf, _ in flows(f, n, e):
                             t = str_template(leaf)
@@ -177,14 +197,44 @@ def wildcard_namespace_tokens(ctx: Ctx) -> None:
             break
         if tokvar:
             break
-    want = {
+    if tokvar is None:
+        # table form: {NamespaceType.X: value, ...}.get(token, token)
+        gfam = [(f, build_cfg(f.node)) for f in rn_family]
+        for f, gf in gfam:
+            for n in gf.stmts():
+                if n.ast is None or n.kind == "test":
+                    continue
+                for dct in [x for x in ast.walk(n.ast) if isinstance(x, ast.Dict) and sum(1 for k in x.keys if k is not None and unparse(k).startswith("NamespaceType.")) >= 2]:
+                    holder = {t.id for st, t, v in stores(f.node) if v is dct and isinstance(t, ast.Name)}
+                    gets = [c for c in calls_in(f.node) if isinstance(c.func, ast.Attribute) and c.func.attr == "get" and len(c.args) == 2 and (unparse(c.func.value) in holder or c.func.value is dct)
+                            and isinstance(c.args[0], ast.Name) and unparse(c.args[1]) == unparse(c.args[0])]
+                    if not gets:
+                        continue
+                    tokvar = gets[0].args[0].id
+                    table[None] = {tokvar}
+                    for k, v in zip(dct.keys, dct.values):
+                        produced = set()
+                        for leaf, _ in flows(f, n, v):
+                            t = str_template(leaf)
+                            if t is not None and any(kk == "hole" for kk, _ in t):
+                                holes = [hv for kk, hv in t if kk == "hole"]
+                                produced.add(template_text(t) + " with " + ",".join(sorted(unparse(x) for h in holes for x, _ in flows(f, n, h))))
+                            else:
+                                produced.add(unparse(leaf))
+                        table[unparse(k)] = produced
+    if tokvar is None:
+        ctx.abstain("wildcard namespace token mapping of resolve_namespaces", at=rn, why="neither a dispatch on the token nor a constant lookup table with a verbatim default")
+        want = {}
+        table = {}
+    want = {} if tokvar is None else {
         "NamespaceType.TARGET_NS": {"parent_namespace", "NamespaceType.ANY_NS"},
         "NamespaceType.LOCAL_NS": {"''"},
         "NamespaceType.OTHER_NS": {"!{} with '',parent_namespace"},
     }
     ok = all(table.get(k) == v for k, v in want.items()) and tokvar is not None and table.get(None) == {tokvar}
-    ctx.ob("##targetNamespace -> parent namespace (or ##any), ##local -> '', ##other -> '!'+parent, any other entry is kept verbatim", ok, at=rn,
-           construct="token mapping", msg=f"token mapping changed: {table}")
+    if tokvar is not None:
+        ctx.ob("##targetNamespace -> parent namespace (or ##any), ##local -> '', ##other -> '!'+parent, any other entry is kept verbatim", ok, at=rn,
+               construct="token mapping", msg=f"token mapping changed: {table}")
     # matching side: the three encodings are recognised by _match_namespace ('' <-> no namespace, ##any, leading '!')
     consts = {x.value for f in family(ctx.repo, mn) for x in walk_no_nested(f.node) if isinstance(x, ast.Constant) and isinstance(x.value, str)}
     ctx.ob("_match_namespace recognises the '!ns' encoding and ##any", "!" in consts and "ANY_NS" in used_m, at=mn, construct="match semantics", msg="namespace matching changed")
@@ -399,3 +449,35 @@ def qname_valued_attributes_are_recognised(ctx: Ctx) -> None:
 from .c08 import unprefixed_attribute_values_stay_plain  # noqa: E402
 
 share("C11", "C11.R12", unprefixed_attribute_values_stay_plain)
+
+from .c03 import default_namespace_never_qualifies_attributes_or_values  # noqa: E402
+
+@rule("C11.R13")
+def wildcard_attribute_namespaces_get_a_named_prefix(ctx: Ctx) -> None:
+    """Qualified wildcard attributes (AnyElement.attributes, attribute maps) come back qualified: a default-namespace binding is no prefix for
+    an attribute (the attribute clause of C03.R11; its QName-value clause belongs to C03 only)."""
+    before = len(ctx.obligations)
+    default_namespace_never_qualifies_attributes_or_values(ctx)
+    ctx.obligations[before:] = [o for o in ctx.obligations[before:] if o.function != "QNameConverter.serialize"]
+
+
+@rule("C11.R14")
+def data_event_always_moves_the_writer_to_tail_state(ctx: Ctx) -> None:
+    """EventHandler.set_data: after any DATA event - also one with nothing to write - the writer is in tail state: the text of the open
+    element is over, so the next DATA event (the tail of an empty generic element) is written after the end tag, not as its text."""
+    fi = ctx.repo.func(f"{SER}:EventHandler.set_data")
+    g = build_cfg(fi.node)
+    from ..q import stores as _stores, is_self_attr as _isa
+
+    sets = [g.node_of(st) for st, tgt, v in _stores(fi.node) if _isa(tgt, "in_tail") and isinstance(v, ast.Constant) and v.value is True]
+    sets = [n for n in sets if n is not None]
+    if not sets:
+        # the flag may be set by a helper the rule does not follow
+        ctx.abstain("tail state of set_data", at=fi, why="no `self.in_tail = True` store in the function")
+        return
+    # every normal path through the function passes a store - except paths on which the flag is already known to be set (tested true)
+    tests = [t for t in g.nodes if t.kind == "test" and t.ast is not None and unparse(t.ast).replace(" ", "") in ("self.in_tail",)]
+    already = [(t.id, m_, l_) for t in tests for m_, l_ in g.succ[t.id] if l_ == "true"]
+    reach = g.reachable([g.entry], blocked=[n.id for n in sets], blocked_edges=already, labels=lambda lab: lab != "exc")
+    ctx.ob("set_data leaves the writer in tail state on every path (also when there is nothing to write)", g.exit not in reach, at=fi, construct="tail state after data",
+           msg="a DATA event with no content leaves in_tail unset: the tail of an empty element (<note/>after) is written as that element's text (<note>after</note>)")
